@@ -616,14 +616,11 @@ class FTPFS(FS):
     def create(self, path, wipe=False):
         # type: (Text, bool) -> bool
         _path = self.validatepath(path)
-        with ftp_errors(self, path):
-            if wipe or not self.isfile(path):
-                empty_file = io.BytesIO()
-                self.ftp.storbinary(
-                    str("STOR ") + _encode(_path, self.ftp.encoding), empty_file
-                )
-                return True
-        return False
+        with self._lock:
+            if not wipe and self.exists(path):
+                return False
+            self.upload(path, io.BytesIO())
+        return True
 
     @classmethod
     def _parse_ftp_time(cls, time_text):
@@ -891,9 +888,16 @@ class FTPFS(FS):
         _path = self.validatepath(path)
         with self._lock:
             with ftp_errors(self, path):
-                self.ftp.storbinary(
-                    str("STOR ") + _encode(_path, self.ftp.encoding), file
-                )
+                try:
+                    self.ftp.storbinary(
+                        str("STOR ") + _encode(_path, self.ftp.encoding), file
+                    )
+                except error_perm as error:
+                    code, _ = _parse_ftp_error(error)
+                    if code == "550":
+                        if self.isdir(path):
+                            raise errors.FileExpected(path)
+                    raise
 
     def writebytes(self, path, contents):
         # type: (Text, ByteString) -> None
